@@ -512,7 +512,17 @@ def main(prop, tier="quick", replay_path=None, only=None, do_shrink=True):
         merged = {s.name: {"evals": 0, "discards": collections.Counter(), "labels": collections.Counter(),
                            "nt": set(), "nt_count": 0, "samples": [], "nt_samples": [], "fails": {},
                            "truncated": 0, "wall": 0.0, "excluded_known": 0, "maxnotes": {}} for s in subs}
-        for res in pool.imap_unordered(run_unit, units, chunksize=1):
+        # watchdog: a worker that hangs (e.g. inside a C kernel on a malformed tensor) must not block the run for ever
+        limit = max(s.budget_s[tier] for s in subs) * 2 + 300 if subs else 300
+        it = pool.imap_unordered(run_unit, units, chunksize=1)
+        results, t_wd = [], time.time()
+        for _ in range(len(units)):
+            try:
+                results.append(it.next(timeout=max(1.0, limit - (time.time() - t_wd))))
+            except mp.TimeoutError:
+                harness_errors.append("watchdog: a work unit did not finish within %.0f s (worker hung?); %d of %d units done" % (limit, len(results), len(units)))
+                break
+        for res in results:
             if not res["ok"]:
                 harness_errors.append("%s shard %s: %s" % (res["sub"], res["shard"], res["error"]))
                 continue
